@@ -98,6 +98,13 @@ theorem commonGrid_eq (mn mx dw : ℚ) (h : 0 ≤ gridNum mn mx dw) :
   congr 1
   omega
 
+theorem gridNum_scale (mn mx dw k : ℚ) (hk : 0 < k) (hdw : dw ≠ 0) :
+    gridNum (mn * k) (mx * k) (dw * k) = gridNum mn mx dw := by
+  rw [gridNum_eq, gridNum_eq, gridTol_eq, gridTol_eq]
+  congr 1
+  have hk' : k ≠ 0 := ne_of_gt hk
+  field_simp
+
 theorem interpMin_eq (a b : ℚ) : Gen.interpMin a b = min a b := rfl
 theorem interpMax_eq (a b : ℚ) : Gen.interpMax a b = max a b := rfl
 
